@@ -532,18 +532,27 @@ func (s *LSpec) genLexInputs(r *Rng, n int) [][]byte {
 	// a rule that is one literal, directly followed (and followed after a blank) by a match of every other rule of its mode:
 	// what the lexer does right after a literal that another rule also accepts (keyword / identifier, '""' / string)
 	for _, m := range s.Modes[:1] {
+		budget := 48 // specifications with hundreds of keyword rules: a sample of the pairs
 		for _, ru := range m.Rules {
 			if len(ru.Expr.Alts) != 1 || len(ru.Expr.Alts[0]) != 1 || ru.Expr.Alts[0][0].Kind != LLit || ru.Expr.Alts[0][0].Card != "" {
 				continue
 			}
-			for _, o := range m.Rules {
-				if o == ru {
+			others := m.Rules
+			if len(others) > 6 {
+				others = nil
+				for k := 0; k < 6; k++ {
+					others = append(others, Pick(r, m.Rules))
+				}
+			}
+			for _, o := range others {
+				if o == ru || budget <= 0 {
 					continue
 				}
 				for _, sep := range [][]int{nil, {' '}} {
 					cs := append(append([]int(nil), ru.Expr.Alts[0][0].Lit...), sep...)
 					s.sampleExpr(r, o.Expr, &cs, 3)
 					add(encodeRunes(cs))
+					budget--
 				}
 			}
 		}
